@@ -1069,6 +1069,10 @@ func ParseExecBlock(p *ParserZH, mainIndent int) *syntax.ExecBlock {
 			p.unsetStmtCompleteFlag()
 			if match, _ := p.tryConsume(TypeCatchErrorW); match {
 				execBlock.CatchBlock = append(execBlock.CatchBlock, ParseCatchErrorStmt(p))
+			} else {
+				// only 拦截 blocks may follow a 拦截 block (nothing was consumed:
+				// going on would loop forever)
+				panic(p.getInvalidSyntaxPeek())
 			}
 		}
 	})
